@@ -167,9 +167,9 @@ inductive AnnotateOut where
   | failed (e : HeaderErr)  -- nothing written, exit status 1
   deriving Repr
 
-/-- the text-level body of `add_header_to_file` after a leading byte order mark has been set
-    aside: what is written back (characters, after newline translation on write) -/
-def annotateCore (c : HdrCfg) (replace skipExisting : Bool) (info : Extracted) (text : Text) : AnnotateOut :=
+/-- the text-level body of `add_header_to_file` (after a leading byte order mark has been set
+    aside, see `annotateFile`): what is written back (characters, after newline translation on write) -/
+def annotateText (c : HdrCfg) (replace skipExisting : Bool) (info : Extracted) (text : Text) : AnnotateOut :=
   if skipExisting && containsReuseInfo c.parses text then .skipped
   else
     let le := detectLineEnding text
@@ -188,11 +188,11 @@ def AnnotateOut.mapWritten (f : Text → Text) : AnnotateOut → AnnotateOut
 
 /-- `add_header_to_file` at text level: a leading byte order mark is not part of the text; it
     stays the first character of what is written -/
-def annotateText (c : HdrCfg) (replace skipExisting : Bool) (info : Extracted) (text : Text) : AnnotateOut :=
+def annotateFile (c : HdrCfg) (replace skipExisting : Bool) (info : Extracted) (text : Text) : AnnotateOut :=
   match text with
   | ch :: rest =>
-    if ch == bomChar then (annotateCore c replace skipExisting info rest).mapWritten (bomChar :: ·)
-    else annotateCore c replace skipExisting info text
-  | [] => annotateCore c replace skipExisting info []
+    if ch == bomChar then (annotateText c replace skipExisting info rest).mapWritten (bomChar :: ·)
+    else annotateText c replace skipExisting info text
+  | [] => annotateText c replace skipExisting info []
 
 end Model
